@@ -47,6 +47,11 @@ MUTANTS = [
  ('parent-states-outgoing', 'minimize', 'dfa.rs', 'self.graph.neighbors_directed(state, Direction::Incoming);', 'self.graph.neighbors_directed(state, Direction::Outgoing);', 'fail', 'get_parent_states'),
  ('benign-minimize-halves-swapped', 'minimize', 'dfa.rs', '                        p.insert(start_idx, i.clone());\n                        p.insert(start_idx + 1, d.clone());', '                        p.insert(start_idx, d.clone());\n                        p.insert(start_idx + 1, i.clone());', 'pass', ''),
  ('benign-minimize-push-larger-half', 'minimize', 'dfa.rs', '} else if i.len() <= d.len() {', '} else if i.len() >= d.len() {', 'pass', ''),
+ ('python-short-escapes-unmatched', 'python', 'python.rs', '([0-9a-f]{1,4})', '([0-9a-f]{4})', 'fail', 'python.every_escape_length_is_rewritten'),
+ ('python-six-digit-unmatched', 'python', 'python.rs', '([0-9a-f]{5,6})', '([0-9a-f]{5})', 'fail', 'python.every_escape_length_is_rewritten'),
+ ('python-astral-pad-fixed-zeros', 'python', 'python.rs', 'format!("\\\\U{:0>8}", &caps[1])', 'format!("\\\\U000{}", &caps[1])', 'fail', 'python.every_escape_length_is_rewritten'),
+ ('python-bmp-written-as-astral', 'python', 'python.rs', 'format!("\\\\u{:0>4}", &caps[1])', 'format!("\\\\U{:0>8}", &caps[1])', 'fail', 'python.every_escape_length_is_rewritten'),
+ ('benign-python-one-to-four-then-rest', 'python', 'python.rs', '([0-9a-f]{5,6})', '([0-9a-f]{5,8})', 'pass', ''),
  ('add-new-state-edge-reversed', 'trie', 'dfa.rs', '.add_edge(current_state, next_state, edge_label.clone());', '.add_edge(next_state, current_state, edge_label.clone());', 'fail', 'add_new_state.'),
  ('insert-marks-start', 'trie', 'dfa.rs', 'self.final_state_indices.insert(current_state.index());\n    }', 'self.final_state_indices.insert(self.initial_state.index());\n    }', 'fail', 'insert.'),
  ('pipeline-sort-before-lowercase', 'regexp', 'regexp.rs', '        if config.is_case_insensitive_matching {\n            Self::convert_for_case_insensitive_matching(test_cases);\n        }\n        Self::sort(test_cases);', '        Self::sort(test_cases);\n        if config.is_case_insensitive_matching {\n            Self::convert_for_case_insensitive_matching(test_cases);\n        }', 'fail', 'pipeline.input_prepared'),
